@@ -182,7 +182,22 @@ func nativeReplay(path string) (bool, string) {
 			return false, short
 		}
 		for _, pos := range strings.Split(rf.Site[i+len("|race:"):], "|") {
-			if !strings.Contains(out, "/"+pos) {
+			if strings.Contains(pos, ".go:") {
+				if !strings.Contains(out, "/"+pos) {
+					return false, short
+				}
+				continue
+			}
+			// an access without a source position (compiler-generated loads of a range loop, for instance) is named by
+			// its function, "(*import/path.T).m": the race report prints it as "path.(*T).m()"
+			fn := pos
+			if k := strings.LastIndex(fn, "/"); k >= 0 {
+				fn = fn[k+1:]
+			}
+			if k := strings.Index(fn, "."); k >= 0 {
+				fn = fn[k+1:]
+			}
+			if !strings.Contains(out, fn+"(") {
 				return false, short
 			}
 		}
